@@ -78,7 +78,7 @@ def key_menus(k, rich):
         return [()]
     if rich and k <= 2:
         # None as a key must not be taken for "no key": alone, and before/after a string key
-        extra = [(None,)] if k == 1 else [(None, 'a'), ('a', None)]
+        extra = [(None,), ('',)] if k == 1 else [(None, 'a'), ('a', None), ('', 'a')]     # '' : an empty path segment
         return list(itertools.permutations(('a', 0, 'K'), k)) + extra
     base = ('a', 0, 'K', 'b', 'c', 'd')
     if rich:
